@@ -98,7 +98,7 @@ Theorem others_do_not_move_it : forall c e c' obs t l,
 Proof. exact lbq_others_do_not_move_lemma. Qed.
 Print Assumptions others_do_not_move_it.
 
-(* NOT PROVED in general (see tools/manifest.d/part_lbq.txt):
+(* PROVED LATER (see props/C09_lbqcap.v: capacity_after_cancellations); originally not proved here in general (see tools/manifest.d/part_lbq.txt):
    capacity_after_cancellations — "in every reachable configuration with no call in flight,
    maxSize - Len() Enqueues run one after the other complete without parking and the next one
    parks".  It is checked on concrete instances below (Example) and dynamically by the stress
